@@ -354,7 +354,12 @@ def check_r2(prop, tier, seed, spec):
         ev_, ab, qm, co, drift, ct = map(int, m.groups())
         path_cov = dict(model="tla/algo/KnuthD.tla at W=64 (tla/PathTrace.tla)", events_evaluated=ev_, constant_time_form=ct, vartime_form=ev_ - ct,
                         took_add_back=ab, quotient_estimate_maxed=qm, needed_3by2_correction=co, spec_drift=drift, wall=round(dt, 1))
-        log("[%s] path labels at W=64: %d recorded divisions re-evaluated by the KnuthD model, %d take add-back, %d have a maxed estimate, %d a 3-by-2 correction, %d SPEC-DRIFT" % (prop, ev_, ab, qm, co, drift))
+        ml = re.search(r'<<"LIMBPATHS", (\d+), (\d+), (\d+)>>', out)
+        if ml:
+            lb, c1, c2 = map(int, ml.groups())
+            path_cov.update(limb_divisions_evaluated=lb, with_first_2by1_correction=c1, with_second_2by1_correction=c2)
+        log("[%s] path labels at W=64: %d recorded divisions re-evaluated by the KnuthD model, %d take add-back, %d have a maxed estimate, %d a 3-by-2 correction, %d SPEC-DRIFT" % (prop, ev_, ab, qm, co, drift)
+            + ("; %d limb divisions: %d with a first, %d with the second 2-by-1 correction" % (lb, c1, c2) if ml else ""))
         g, d_ = parse_states(out)
         totals["states"] += d_; totals["transitions"] += g
     for rspec, fut in r1_futs:
